@@ -8,25 +8,9 @@ HERE = os.path.dirname(os.path.dirname(os.path.abspath(__file__)))
 
 TRUST = "Trusted base: the reference oracle in /verif/vf/ref (my reading of the RFC, self-tested on every run), CPython 3.12, the generators' reach. Decides only the executions produced."
 
-ADDENDA = {  # workload dimensions added while validating against seeded changes (DESIGN 11.4)
-    "C01": " Also: shared and non-default-encoding PackingOptions, objects owning transient field values, edits after packing, look-alike spellings of known OIDs, the library's str-enum members as names, unknown result codes congruent modulo 2^8..2^64.",
-    "C02": " Also: signed/char-item memoryviews and slices of larger buffers, the caller editing returned messages, a bystander session, streams containing one message that must be refused (the verdict may not depend on the cut), padded length forms up to 120 octets.",
-    "C03": " Also: look-alike OIDs, enum-member names, mid-range boundary lengths (300..32769).",
-    "C04": " Also: envelope-level [10], present-but-empty controls element, padded lengths of up to 126 octets, universal trailing elements after complete component lists.",
-    "C05": " Also: multi-kilobyte INTEGER contents (beyond CPython's int->str digit limit), receive called with little stack headroom, post-error send calls.",
-    "C06": " Also: bursts of 200-65537 units in one delivery, outer length forms of 8-126 octets.",
-    "C07": " Also: integers of 14400-40000 bits, elements of 2^21..2^24+2^16 octets, seven kinds of input buffer; the contract evaluation counts are evidence, the gate is on the boundary oracle.",
-    "C08": " Also: send calls that fail while encoding (no bytes, no state change), look-alike notice names, long-lived sessions, one controls list object refilled in place between calls.",
-    "C09": " Also: 2-1000 operations outstanding at once answered in four orders, look-alike notice names on responses.",
-    "C10": " Also: 2-1000 requests open at once with non-monotonic and > 2^31 ids, failing sends anywhere in a history.",
-    "C11": " Also: controls on every kind of call, empty/absent values, DNs, passwords and credentials, enum-member and look-alike names, unbind as first call, both ends CLOSED after a termination.",
-    "C13": " Also: the library's == and a field-by-field walk must agree, values held in bytearrays, values of 63-1100 octets owned by the tree, edits after str().",
-    "C14": " Also: each hex digit cased independently, 129-420-level sentences, malformed inputs (incl. bad escapes, low-headroom parses) before sentences.",
-    "C15": " Also: calls with 40-400 frames of stack headroom, the same malformed fragment at far and near positions, the exception must carry this call's text.",
-    "C16": " Also: 150-6000 extensions/names/list members, syntax lengths to 10^100, refused texts before cases, field-by-field comparison.",
-    "C17": " Also: quoted SYNTAX with a length bound, 150-6000 extensions, the same text offered to the other definition kinds first.",
-    "C19": " Also: registrations after the session has carried traffic, custom ids next to the built-ins and in high-tag-number form, a fresh session after other sessions failed with little stack headroom.",
-}
+import sys, os
+sys.path.insert(0, os.path.dirname(os.path.dirname(os.path.abspath(__file__))))
+from vf.addenda import ADDENDA
 
 CHECKS = {
     "C01": ("exploration", "differential round trip on generated messages: field-wise comparator + consumption + re-pack oracle",
